@@ -16,7 +16,7 @@ def corpus_cases():
     return hist.marker_collision_cases("c09") + hist.wo_names_cases("c09")
 
 
-CONFIGS = ["ovl_m", "ovl_mm", "ovl_mmm", "ovl_pp", "ovl_mp", "ovl_sub", "ovl_late", "alt_ovl", "ovl_alt", "ovl_ovl"]
+CONFIGS = ["ovl_m", "ovl_mm", "ovl_mmm", "ovl_4", "ovl_pmpm", "ovl_pp", "ovl_mp", "ovl_sub", "ovl_late", "alt_ovl", "ovl_alt", "ovl_ovl"]
 P = histprop.HistProp(
     "C09", CONFIGS, typed=True, quick_cases=12, thorough_cases=150, nops=(10, 22), known=known, use_spec=True, corpus_cases=corpus_cases,
     prepop_density=0.8, with_times=False,
